@@ -224,8 +224,11 @@ def check(tier):
     opt = [a.arg for a in v.args.args[1:]]
     guarded = [i for i in ast.walk(v) if isinstance(i, ast.If) and isinstance(i.test, ast.Name) and i.test.id in opt]
     okc = False
+    from ..match import reach_private
+    itree_ = prog.mods['stdnum.iban'].tree
     for i in guarded:
-        inner = [c for st in i.body for c in ast.walk(st) if isinstance(c, ast.Call)]
+        wrapper = ast.FunctionDef(name='<guarded>', args=v.args, body=i.body, decorator_list=[], returns=None, type_comment=None, type_params=[])
+        inner = [c for f_ in reach_private(itree_, wrapper) for c in ast.walk(f_) if isinstance(c, ast.Call)]
         if any(src(c.func) == '_get_cc_module' for c in inner) and any(
                 isinstance(c.func, ast.Attribute) and c.func.attr == 'validate' and c.args and isinstance(c.args[0], ast.Name) for c in inner):
             okc = True
